@@ -185,3 +185,49 @@ pub fn attach(t: &mut Toks) -> String {
         outs.join(" # ")
     })
 }
+
+/// case: early <nrows> <off_ms> <relay_delay_ms>
+///   the relay between the matcher's event channel and the broadcast takes relay_delay_ms per
+///   event (schedule knob); the table holds nrows rows; a first subscriber creates the subscription and off_ms later --
+///   while its initial query may still be running -- a second one attaches; then 3 changes.
+/// obs: per subscriber `rows=<row events> eoq=<end-of-query events> evs=<eoq/change sequence>`
+pub fn early(t: &mut Toks) -> String {
+    let rt = tokio::runtime::Builder::new_multi_thread().worker_threads(6).enable_all().build().unwrap();
+    let nrows = t.u64();
+    let off = t.u64();
+    let relay = t.u64();
+    vh::MANUAL.store(false, SeqCst);
+    ph::BCAST_DELAY_MS.store(relay, SeqCst);
+    ph::TRACE.lock().unwrap().clear();
+    let out = rt.block_on(async move {
+        let srv = c17::start(None).await;
+        let addr = srv.addr;
+        let fill = format!(r#"["WITH RECURSIVE c(x) AS (SELECT 1 UNION ALL SELECT x + 1 FROM c WHERE x < {nrows}) INSERT INTO tests (id, text) SELECT x, 'r' || x FROM c"]"#);
+        let _ = c17::http(addr, "POST", "/v1/transactions", &[], &fill).await;
+        let (stop_tx, stop_rx) = tokio::sync::watch::channel(false);
+        let body = serde_json::to_string(SQL).unwrap();
+        let first = tokio::spawn({ let b = body.clone(); let rx = stop_rx.clone(); async move { stream(addr, "POST", "/v1/subscriptions", &b, rx).await } });
+        tokio::time::sleep(Duration::from_millis(off)).await;
+        let second = tokio::spawn({ let b = body.clone(); let rx = stop_rx.clone(); async move { stream(addr, "POST", "/v1/subscriptions", &b, rx).await } });
+        // wait until both have seen an end of query (or 30 s), then produce 3 changes
+        tokio::time::sleep(Duration::from_millis(3000 + nrows / 20 + relay * (nrows + 3))).await;
+        ph::BCAST_DELAY_MS.store(0, SeqCst);
+        for i in 0..3 {
+            let b = format!(r#"["INSERT INTO tests (id, text) VALUES ({}, 'late')"]"#, nrows + 1 + i);
+            let _ = c17::http(addr, "POST", "/v1/transactions", &[], &b).await;
+            tokio::time::sleep(Duration::from_millis(400)).await;
+        }
+        tokio::time::sleep(Duration::from_millis(1500)).await;
+        let _ = stop_tx.send(true);
+        let mut outs = vec![];
+        for (name, h) in [("first", first), ("A", second)] {
+            let (status, _id, evs, closed) = h.await.unwrap();
+            let rows = evs.iter().filter(|e| *e == "row").count();
+            let eoq = evs.iter().filter(|e| e.starts_with("eoq")).count();
+            outs.push(format!("{name} status={status} rows={rows} eoq={eoq} evs={} closed={}", evs.iter().filter(|e| *e != "row").cloned().collect::<Vec<_>>().join(","), if closed { 1 } else { 0 }));
+        }
+        outs.join(" # ")
+    });
+    rt.shutdown_background();
+    out
+}
